@@ -6,6 +6,7 @@ import json, os, re, sys
 sys.path.insert(0, os.path.join(os.path.dirname(os.path.abspath(__file__)), "..", "rules"))
 
 MAPLEN = {"kind": "rule", "rule": "MAPLEN"}
+VERIFYMAP = {"kind": "rule", "rule": "VERIFYMAP"}
 FTS = {"kind": "err_before",
        "fn": "vibrato::dictionary::connector::raw_connector::RawConnectorBuilder::from_readers",
        "local": "feat_template_size"}
@@ -72,8 +73,8 @@ RULES = [
  ("Lexicon::parse_csv", r"index::index\(arg1,agg\)", "nin <= bytes.len() is csv-core's read_field contract", None),
  ("Lexicon::parse_csv", r"index::index\(var:&\[u8\],agg\)", "record_end_pos / features_len sum the nin of the fields read since record_bytes / features_bytes were set, so the ranges stay inside those slices; features_len is reset to 0 in the cost-column arm and therefore never counts bytes before features_bytes", FEATLEN),
  ("WordParams::get", r"index\(arg1\.params,arg2\)", "called from Lexicon::verify with the loop variable of 0..params.len() (tokenization-path callers are out of scope here)", None),
- ("ConnIdMapper::left", r"index\(arg1\.left", "ids handed to the mapper are < num_left: lexicon/unknown ids by verify() in build()/reset_user_lexicon, loop indices in the connectors, and the mapper's length equals the connector's", MAPLEN),
- ("ConnIdMapper::right", r"index\(arg1\.right", "as for left()", MAPLEN),
+ ("ConnIdMapper::left", r"index\(arg1\.left", "ids handed to the mapper are < num_left: lexicon/unknown ids are verified in build() and, for a user lexicon, by verify() BEFORE map_connection_ids in reset_user_lexicon_from_reader (checked: VERIFYMAP); loop indices in the connectors; and the mapper's length equals the connector's (MAPLEN)", VERIFYMAP),
+ ("ConnIdMapper::right", r"index\(arg1\.right", "as for left()", VERIFYMAP),
  ("ConnIdMapper::parse", r"index_mut\(from_elem\(65535\),from\(0\)\)", "new_ids has old_ids.len() >= 1 elements (old_ids starts with the BOS/EOS id)", None),
  ("ConnIdMapper::parse", r"assert_failed", "debug_assert_ne!(old_id, 0): id 0 was rejected with Err while old_ids was filled", None),
  ("UnkHandler::from_reader", r"unwrap\(try_from\(branch", "category ids are < 18", None),
